@@ -76,7 +76,8 @@ def run():
                                 lambda a=as_ops, c=cut: TDRedfieldRelaxationTensor(ham, sbi, as_operators=a, cutoff_time=c)))
         for pd in (False, True):
             tensors.append(("Foerster pure_dephasing=%s" % pd, lambda p=pd: FoersterRelaxationTensor(ham, sbi, pure_dephasing=p)))
-            tensors.append(("TDFoerster pure_dephasing=%s" % pd, lambda p=pd: TDFoersterRelaxationTensor(ham, sbi, pure_dephasing=p)))
+            if pd:
+                tensors.append(("TDFoerster", lambda: TDFoersterRelaxationTensor(ham, sbi)))
         for label, mk in tensors:
             try:
                 RT = mk()
